@@ -21,7 +21,7 @@ from ..rngseam import Scripted, r_for_geometric, set_global_state
 from ..snap import integrity, snapshot
 from . import common
 
-EXTRA_OPS = {"generate", "decoders"}
+EXTRA_OPS = {"generate", "decoders", "coverage"}
 EXPECTED_PROBES = ["skip_sampling_landed_on_last_index", "skip_sampling_landed_on_index_0",
                    "skip_sampling_one_past_last_index", "probability_one", "probability_zero"]
 PROBS = [0.0, 1e-9, 0.3, 0.3, 0.7, 1.0 - 1e-9, 1.0]
@@ -46,6 +46,10 @@ def next_record(sim):
     r = g.r
     if r.random() < 0.05:
         return {"uid": g.next_uid(), "op": "decoders", "n": r.randint(1, 9), "m": r.randint(1, 4)}
+    if r.random() < 0.04:
+        m = r.choice([2, 3])
+        return {"uid": g.next_uid(), "op": "coverage", "which": r.choice(COVER_FNS), "n": r.randint(m, 6), "m": m,
+                "p": r.choice([0.5, 0.7]), "seed": r.randrange(1 << 20)}
     fn = r.choice(sim.cfg["gens"])
     params = gen_params(r, fn)
     mode = "adversarial" if r.random() < sim.cfg["p_adversarial"] else r.choice(["seed", "seed", "global"])
@@ -61,7 +65,26 @@ def rand_graph(r, n):
     return [[i, j] for i in range(n) for j in range(i + 1, n) if r.random() < p]
 
 
+def sparse_large_params(r, fn):
+    """large n, tiny probability (expected number of edges about 1-3): skip sampling makes this as
+    cheap as a small case, and it is the regime where p is far below 1e-8"""
+    import math
+    n = r.choice([200, 500, 1000, 3000])
+    m = r.choice([3, 4])
+    lam = r.choice([1.0, 2.0, 3.0])
+    p = lam / math.comb(n, m)
+    if fn == "fast_random_hypergraph":
+        return {"n": n, "ps": [p], "order": [m - 1]}
+    if fn == "uniform_erdos_renyi_hypergraph":
+        return {"n": n, "m": m, "p": p, "p_type": "prob", "multiedges": False}
+    if fn == "uniform_HPPM":
+        return {"n": n, "m": 3, "k": r.choice([0.01, 0.05]), "epsilon": 0.5, "rho": 0.5}
+    return None
+
+
 def gen_params(r, fn):
+    if fn in ("fast_random_hypergraph", "uniform_erdos_renyi_hypergraph", "uniform_HPPM") and r.random() < 0.12:
+        return sparse_large_params(r, fn)
     n = r.randint(1, 9)
     if fn in ("fast_random_hypergraph", "random_hypergraph"):
         k = r.randint(1, 3)
@@ -156,6 +179,8 @@ def gen_script(r, fn, params):
     if p is not None and 0 < p < 1:
         if M is not None and M >= 0:
             plan = r.choice([[1], [M + 1], [M + 2], [1, M], [M, 1, 1], [1] * min(M + 2, 12), [M + 1, 1]])
+            if M > 10 ** 6:
+                plan = [1, 1]
         else:
             plan = [r.choice([1, 1, 2, 3]) for _ in range(r.randint(1, 6))]
         py = [r_for_geometric(max(1, g), p) for g in plan]
@@ -461,6 +486,51 @@ def closure(es):
     return []
 
 
+COVER_FNS = ["fast_random_hypergraph", "uniform_erdos_renyi_hypergraph", "uniform_erdos_renyi_multi",
+             "random_hypergraph", "uniform_HSBM_one_block"]
+
+
+def do_coverage(sim, rec):
+    """Every admissible edge has probability p > 0 of being generated.  Over K = 90 seeds with
+    p >= 0.5 a given edge is absent from all runs with probability <= 2^-90; the union must
+    therefore be the complete set (a sampler that can never produce some edge -- e.g. one that
+    stops one index short -- fails here whatever its internals are)."""
+    w = sim.world
+    xgi = sim.xgi
+    import math
+    which, n, m, p, s0 = rec["which"], rec["n"], rec["m"], rec["p"], rec["seed"]
+    w.stats["op:coverage." + which] += 1
+    union = set()
+    K = 90
+    with warnings.catch_warnings():
+        warnings.simplefilter("ignore")
+        try:
+            for i in range(K):
+                if which == "fast_random_hypergraph":
+                    H = xgi.fast_random_hypergraph(n, [p], order=[m - 1], seed=s0 + i)
+                elif which == "random_hypergraph":
+                    H = xgi.random_hypergraph(n, [p], order=[m - 1], seed=s0 + i)
+                elif which == "uniform_erdos_renyi_hypergraph":
+                    H = xgi.uniform_erdos_renyi_hypergraph(n, m, p, seed=s0 + i)
+                elif which == "uniform_erdos_renyi_multi":
+                    H = xgi.uniform_erdos_renyi_hypergraph(n, m, p, multiedges=True, seed=s0 + i)
+                else:
+                    H = xgi.uniform_HSBM(n, m, np.full([1] * m, p), [n], seed=s0 + i)
+                union |= {frozenset(e) for e in H.edges.members()}
+        except Exception as ex:  # noqa
+            w.find({"C16"}, "generator_raised", dict(rec, op="coverage:" + which), "gen",
+                   f"{which}(n={n}, m={m}, p={p}): {type(ex).__name__}: {ex}")
+            return None
+    want = {frozenset(c) for c in combinations(range(n), m)}
+    missing = want - union
+    w.logev("coverage", rec["uid"], which, n, m, p, len(missing))
+    if missing:
+        w.find({"C16"}, "edge_never_generated", dict(rec, op="coverage:" + which), "gen",
+               f"{which}(n={n}, m={m}, p={p}): over {K} seeds the node set(s) {sorted(map(csort, missing))[:3]!r} "
+               f"never appear although each has probability {p} per run")
+    return None
+
+
 def do_decoders(sim, rec):
     """exhaustive: the index decodings are bijections onto combinations / tuples / block products"""
     w = sim.world
@@ -493,4 +563,6 @@ def do_decoders(sim, rec):
 def exec_extra(sim, rec):
     if rec["op"] == "decoders":
         return do_decoders(sim, rec)
+    if rec["op"] == "coverage":
+        return do_coverage(sim, rec)
     return do_generate(sim, rec)
